@@ -189,13 +189,15 @@ def norm_scale(cls_name, pat):
 # ------------------------------------------------------------------------------------------------
 # the property oracle
 # ------------------------------------------------------------------------------------------------
-def _ratio_ok(e1, e2, floor, want):
-    """err(eps) / err(eps/2) >= want, unless both are at the noise floor."""
-    if e1 <= floor and e2 <= floor:
-        return True
-    if e2 <= floor / 4:
-        return True
-    return e1 / e2 >= want
+def taylor_coeffs(eps, errs):
+    """Signed error vectors e(eps_j) = c1 eps_j + c2 eps_j^2 + ... (no constant term), j = 1..m:
+    exact solve for c1..cm.  Testing "c1 = 0" (first-order agreement) or "c1 = c2 = 0" (second-order
+    agreement) on the estimated coefficients is immune to cancellations between higher-order terms,
+    unlike a ratio of error norms."""
+    eps = np.asarray(eps, dtype=float)
+    A = np.stack([eps ** (k + 1) for k in range(len(eps))], axis=1)
+    E = np.stack([np.atleast_1d(np.asarray(e, dtype=float)) for e in errs], axis=0)
+    return np.linalg.solve(A, E)  # row k: coefficient c_{k+1} for every component
 
 
 def check_droplet(cls_name, R, centre, pat, rng, heavy=True):
@@ -232,15 +234,21 @@ def check_droplet(cls_name, R, centre, pat, rng, heavy=True):
         if not abs(float(d.surface_area) - length) <= 1e-9 * length:
             fail("surface_area differs from the arc length of the interface", amplitudes=amps,
                  got=float(d.surface_area), expected=length)
-        # surface_area_approx: quadratic in the amplitudes -> error shrinks at least like eps^3
-        errs = []
-        for f in (1.0, 0.5):
-            a2 = [f * x for x in amps]
+        # surface_area_approx is "quadratic in the amplitudes": in e(eps) = (approx - exact)/(2 pi R) for the
+        # family eps * pattern the coefficients of eps and eps^2 must vanish.  Scale of the second-order term
+        # per unit eps^2: A2 = sum n^2 (a^2 + b^2) / 4; c4 eps^2 contaminates the estimate of c2 (5% allowed)
+        e_list, es = [], (0.1, 0.05, 0.025)
+        for e in es:
+            a2 = [e * s * x for x in pat]
             rr, rr1, _ = shape2d(R, a2, pq)
             L = float(np.sum(np.hypot(rr, rr1)) * 2 * np.pi / N)
-            errs.append(abs(float(make(cls_name, R, centre, a2).surface_area_approx) - L) / L)
-        if not _ratio_ok(errs[0], errs[1], 1e-12, 6.0):
-            fail("surface_area_approx is not accurate to second order in the amplitudes", amplitudes=amps, errors=errs)
+            e_list.append((float(make(cls_name, R, centre, a2).surface_area_approx) - L) / (2 * np.pi * R))
+        c = taylor_coeffs(es, e_list)[:, 0]
+        A2 = sum(n * n * ((s * a) ** 2 + (s * b) ** 2) for n, (a, b) in enumerate(pairs(pat), 1)) / 4
+        if not (abs(c[0]) <= 1e-6 + 1e-3 * math.sqrt(A2) and abs(c[1]) <= 1e-6 + 0.05 * A2):
+            fail("surface_area_approx is not accurate to second order in the amplitudes",
+                 amplitudes=[es[0] * s * x for x in pat], first_and_second_order_error_coefficients=c[:2].tolist(),
+                 second_order_scale=A2)
         # positions and triangulation
         pos = d.interface_position(phi)
         want = np.array(centre)[None, :] + r[:, None] * np.stack([np.cos(phi), np.sin(phi)], axis=1)
@@ -256,15 +264,21 @@ def check_droplet(cls_name, R, centre, pat, rng, heavy=True):
             i = int(np.argmax(dev))
             fail("triangulation vertex not on the interface", amplitudes=amps, vertex=(v[i] + np.array(centre)).tolist(),
                  distance_from_centre=float(rho[i]), interface_distance=float(d.interface_distance(ang[i:i + 1])[0]))
-        # curvature: first order in the amplitudes (exact curvature from the analytic derivatives)
-        errs = []
-        for e in (2e-3, 1e-3):
+        # curvature: first order in the amplitudes (exact curvature from the analytic derivatives).  The
+        # pattern is normalised to sum (n^2+1)(|a|+|b|) = 1, so first-order corrections are O(1) per unit eps;
+        # the coefficient of eps in R*(coded - exact) must vanish (estimate contaminated by c3 eps^2 only)
+        e_list, es = [], (2e-3, 1e-3)
+        for e in es:
             a2 = [e * s * x for x in pat]
             kc = make(cls_name, R, centre, a2).interface_curvature(phi)
-            errs.append(float(np.max(np.abs(kc - curvature2d_exact(R, a2, phi))) * R))
-        if not _ratio_ok(errs[0], errs[1], 1e-13, 3.0):
+            e_list.append((kc - curvature2d_exact(R, a2, phi)) * R)
+        c1 = taylor_coeffs(es, e_list)[0]
+        if not float(np.max(np.abs(c1))) <= 1e-4:
+            i = int(np.argmax(np.abs(c1)))
             fail("interface_curvature deviates from the exact curvature at first order in the amplitudes",
-                 amplitudes=[2e-3 * s * x for x in pat], scaled_errors_eps_and_half=errs, angles=phi.tolist())
+                 amplitudes=[es[0] * s * x for x in pat], angle=float(phi[i]), first_order_error_coefficient=float(c1[i]),
+                 coded=float(make(cls_name, R, centre, [es[0] * s * x for x in pat]).interface_curvature(phi[i:i + 1])[0]),
+                 exact=float(curvature2d_exact(R, [es[0] * s * x for x in pat], phi[i:i + 1])[0]))
         # volume setter keeps the relative perturbations
         d2 = make(cls_name, R, centre, amps)
         V = 1.7 * float(d.volume)
@@ -308,29 +322,43 @@ def check_droplet(cls_name, R, centre, pat, rng, heavy=True):
         if vol is not None and not abs(vol - exact) <= 1e-7 * exact:
             fail("volume differs from the integral of r^3/3 over the sphere of directions", amplitudes=amps,
                  got=vol, expected=exact)
-    # volume_approx: exact to first order
-    errs = []
-    for e in (0.04, 0.02):
+    # volume_approx: exact to first order: the coefficient of eps in (approx - exact)/V_sphere must vanish
+    # (perturbation size per unit eps: sum |a_k| <= 1/2; c3 = int g^3/(4 pi) is negligible)
+    V0 = 4 * math.pi / 3 * R ** 3
+    e_list, es = [], (0.04, 0.02)
+    for e in es:
         a2 = [e * s * x for x in pat]
         d2 = make(cls_name, R, centre, a2)
-        ex = volume3d_quadrature(dist_fn(d2, cls_name))
-        errs.append(abs(float(d2.volume_approx) - ex) / ex)
-    if not _ratio_ok(errs[0], errs[1], 1e-13, 3.0):
-        fail("volume_approx deviates from the exact volume at first order in the amplitudes",
-             amplitudes=[0.04 * s * x for x in pat], relative_errors_eps_and_half=errs)
-    # curvature: first order, against the finite-difference mean curvature of the level set
-    errs = []
-    for e in (0.04, 0.02):
+        e_list.append((float(d2.volume_approx) - volume3d_quadrature(dist_fn(d2, cls_name))) / V0)
+    c1 = float(taylor_coeffs(es, e_list)[0, 0])
+    if not abs(c1) <= 1e-3:
+        a2 = [es[0] * s * x for x in pat]
+        d2 = make(cls_name, R, centre, a2)
+        fail("volume_approx deviates from the exact volume at first order in the amplitudes", amplitudes=a2,
+             first_order_error_coefficient=c1, volume_approx=float(d2.volume_approx),
+             exact_volume=volume3d_quadrature(dist_fn(d2, cls_name)))
+    # curvature: first order, against the finite-difference mean curvature of the level set.  Pattern
+    # normalised to sum (l^2+1)|a_k| = 1: first-order corrections are O(1) per unit eps; the coefficient of eps
+    # in R*(coded - true) must vanish.  Budget 1e-2: c3 eps^2/2 (<= 1e-3) + finite-difference error (2e-5 per
+    # unit eps after removing the sphere's truncation error)
+    e_list, es = [], (0.04, 0.02)
+    for e in es:
         a2 = [e * s * x for x in pat]
         d2 = make(cls_name, R, centre, a2)
         kc = d2.interface_curvature(th) if axis else d2.interface_curvature(th, ph)
         kx = mean_curvature_fd(dist_fn(d2, cls_name), th, ph, sphere_radius=R)
-        errs.append(float(np.max(np.abs(kc - kx)) * R))
-    # noise floor: remaining truncation error of the central differences, h_rel^2 * eps * l^4/(l^2+1) <= 4e-6*0.04*16
-    if not _ratio_ok(errs[0], errs[1], 3e-6, 2.8):
+        e_list.append((kc - kx) * R)
+    c1 = taylor_coeffs(es, e_list)[0]
+    if not float(np.max(np.abs(c1))) <= 1e-2:
+        i = int(np.argmax(np.abs(c1)))
+        a2 = [es[0] * s * x for x in pat]
+        d2 = make(cls_name, R, centre, a2)
+        kc = d2.interface_curvature(th[i:i + 1]) if axis else d2.interface_curvature(th[i:i + 1], ph[i:i + 1])
         fail("interface_curvature deviates from the true mean curvature at first order in the amplitudes",
-             amplitudes=[0.04 * s * x for x in pat], scaled_errors_eps_and_half=errs,
-             theta=th.tolist(), phi=ph.tolist())
+             amplitudes=a2, theta=float(th[i]), phi=float(ph[i]), first_order_error_coefficient=float(c1[i]),
+             coded=float(kc[0]),
+             finite_difference_mean_curvature=float(mean_curvature_fd(dist_fn(d2, cls_name), th[i:i + 1], ph[i:i + 1],
+                                                                     sphere_radius=R)[0]))
     return fails
 
 
@@ -408,6 +436,11 @@ def _list_lit(amps):
 def _Y_lit(values):
     arms = " | ".join(f"{k}%nat => {vlib.rlit(float(y))}" for k, y in enumerate(values, 1))
     return f"(fun k : nat => match k with {arms} | _ => 0 end)" if values else "(fun _ : nat => 0)"
+
+
+def _first(x) -> float:
+    """First entry of an array result (the 3-d curvature of an unperturbed droplet comes back as a scalar)."""
+    return float(np.ravel(np.asarray(x, dtype=float))[0])
 
 
 def _line_elements(d):
@@ -489,10 +522,10 @@ def _sample_goals(ctx, rng):
                 ta, pa = np.array([th]), np.array([ph])
                 if cls_name == "PerturbedDroplet3D":
                     Y = [sp.spherical_harmonic_real_k(k, th, ph) for k in range(1, n + 1)]
-                    dist, curv = d.interface_distance(ta, pa)[0], d.interface_curvature(ta, pa)[0]
+                    dist, curv = _first(d.interface_distance(ta, pa)), _first(d.interface_curvature(ta, pa))
                 else:
                     Y = [sp.spherical_harmonic_symmetric(k, th) for k in range(1, n + 1)]
-                    dist, curv = d.interface_distance(ta)[0], d.interface_curvature(ta)[0]
+                    dist, curv = _first(d.interface_distance(ta)), _first(d.interface_curvature(ta))
                 Yl = _Y_lit(Y)
                 add(f"dist{tag} R={Rr} amps={amps} theta={th} phi={ph}", f"dist{tag} {R_(Rr)} {Yl} {L}", dist)
                 add(f"curv{tag} R={Rr} amps={amps} theta={th} phi={ph}", f"curv{tag} {R_(Rr)} {Yl} {L}", curv)
